@@ -53,6 +53,15 @@ def shards(tier, seed):
             sh += mk('normsq: grade blocks d=4,5', c, ('Gsmall',), ('B',), 2, kind='un')
         for n in ('2DPGA', '3DPGA'):
             sh += mk('named custom bases: subsets <=2 blades', spaces.NAMED[n], ('S', 2), ('S', 2), 8, kind='bin')
+    # cross-algebra histories: all signature orderings of one dimension in ONE process, forward and backward
+    for d in (1, 2):
+        for order in (spaces.sig(d), list(reversed(spaces.sig(d)))):
+            sh.append(dict(stratum='all signature orderings of d<=2 one after the other in one process (two orders), subsets <=2 blades',
+                           seq=[binprog.mk('seq', spaces.cfg_sig(s), ('S', 2), ('S', 2), 1, kind='bin')[0] for s in order]))
+    for d in (1, 2):
+        for order in (spaces.sig(d), list(reversed(spaces.sig(d)))):
+            sh.append(dict(stratum='all signature orderings of d<=2 one after the other in one process (two orders), subsets <=2 blades',
+                           seq=[binprog.mk('seq', spaces.cfg_sig(s), ('S', None), ('B',), 1, kind='un')[0] for s in order]))
     return sh
 
 
@@ -67,6 +76,9 @@ def _expand_special(shard, alg):
 
 
 def run_shard(shard):
+    if 'seq' in shard:
+        from ..common import run_sequence
+        return run_sequence(run_shard, shard)
     res = Result()
     cfg = shard['cfg']
     alg = make_algebra(cfg)
